@@ -67,7 +67,7 @@ func c07Line(c *Ctx, r *Report) {
 		}
 		cs := callers[g]
 		if len(cs) == 0 {
-			r.check("C07.LINE", key, g.Pos(), false, "the function takes bytes from the reader without counting lines and nothing that calls it does: every position after a newline it consumed is reported on an earlier line")
+			r.flag("C07.LINE", key, g.Pos(), "the function takes bytes from the reader without counting lines and nothing that calls it does: every position after a newline it consumed is reported on an earlier line")
 			return
 		}
 		r.check("C07.LINE", key+" in every caller", g.Pos(), true, "")
